@@ -3,6 +3,8 @@
    (Model/MsgId.v) is the tree with the two C10 repairs applied; the algorithm
    as pinned is refuted at the end. *)
 From Coq Require Import Permutation.
+(* source tie by translation: the lemmas of these files are obligations of this property *)
+From Soy Require Import Proofs.SourceTieMsg.
 From Soy Require Import Model.Bytes Model.Outcome Generated.Tables Model.MsgId Spec.Msg Proofs.MsgIdProofs.
 (* scopes *) Open Scope N_scope.
 
